@@ -330,7 +330,8 @@ Definition step (w : world) (a : action) : option world :=
       (* electLeader deletes the removed nodes once BecomeLeader has succeeded *)
       match find (fun r => match r with (t', _, _) => t' =? cterm w end) (elected w) with
       | Some (_, l, _) =>
-          if status_eqb (nst (nodes w l)) Leader && (nterm (nodes w l) =? cterm w) then
+          (* the coordinator sends DeleteShard because BecomeLeader returned; the leader may have crashed since *)
+          if match elog w (cterm w) with Some _ => true | None => false end then
             Some (mkW (fun n => if mem n (removed w) then node0 else nodes w n) (cterm w) (ens w) []
                       (resps w) (elected w) (elog w) (tlog w) (appends w) (acks w) (cacked w) (cq w) (att w))
           else None
